@@ -45,6 +45,7 @@ struct Ctx {
     std::vector<Violation> viol;
     std::map<std::string, long> probes;
     int eager_permille = 0;           // F10
+    long aux[8] = {0, 0, 0, 0, 0, 0, 0, 0};   // subject-defined values passed from run() to check()
     std::vector<int> client_tid;      // simulated thread id of client i
     void fail(const char* cls, const char* fmt, ...) __attribute__((format(printf, 3, 4)));
     int begin_op(int thread, const Op& op);              // records invocation; returns history index
